@@ -828,6 +828,68 @@ pub fn run(cfg: &Config) -> i32 {
                 cases.push(("json/c04-point".into(), Case::Json { mt, text: j.to_string() }));
             }
         }
+        // every key of the body removed in turn (a mandatory slot empty while a later one is filled)
+        for (mt, e) in &env {
+            let mut keys: Vec<Vec<String>> = Vec::new();
+            fn key_paths(v: &Value, cur: &mut Vec<String>, out: &mut Vec<Vec<String>>) {
+                match v {
+                    Value::Object(m) => {
+                        for (k, x) in m {
+                            cur.push(k.clone());
+                            out.push(cur.clone());
+                            key_paths(x, cur, out);
+                            cur.pop();
+                        }
+                    }
+                    Value::Array(a) => {
+                        for (i, x) in a.iter().enumerate().take(3) {
+                            cur.push(i.to_string());
+                            key_paths(x, cur, out);
+                            cur.pop();
+                        }
+                    }
+                    _ => {}
+                }
+            }
+            if let Some(f) = e.get("fields") {
+                key_paths(f, &mut vec!["fields".to_string()], &mut keys);
+            }
+            for path in keys {
+                let mut j = e.clone();
+                let (last, parent) = path.split_last().unwrap();
+                if let Some(Value::Object(m)) = get_path_mut(&mut j, parent) {
+                    m.remove(last);
+                    cases.push(("json/key-removed".into(), Case::Json { mt: mt.clone(), text: j.to_string() }));
+                }
+            }
+        }
+        for (mt, body) in crate::props::c04::sweep_bodies(cfg.tier.pick(60usize, 600usize)) {
+            // and every key of the rule-relevant points removed (first level and inside the first sequences)
+            if let Some(e) = env.get(&mt)
+                && let Value::Object(m) = &body
+            {
+                for k in m.keys() {
+                    let mut b = body.clone();
+                    b.as_object_mut().unwrap().remove(k);
+                    let mut j = e.clone();
+                    j["fields"] = b;
+                    cases.push(("json/c04-point-key-removed".into(), Case::Json { mt: mt.clone(), text: j.to_string() }));
+                }
+                if let Some(Value::Array(seq)) = m.get("#") {
+                    for (si, it) in seq.iter().enumerate().take(2) {
+                        if let Value::Object(im) = it {
+                            for k in im.keys() {
+                                let mut b = body.clone();
+                                b["#"][si].as_object_mut().unwrap().remove(k);
+                                let mut j = e.clone();
+                                j["fields"] = b;
+                                cases.push(("json/c04-point-key-removed".into(), Case::Json { mt: mt.clone(), text: j.to_string() }));
+                            }
+                        }
+                    }
+                }
+            }
+        }
         for (mt, e) in &env {
             let mut paths = Vec::new();
             array_paths(e, &mut Vec::new(), &mut paths);
@@ -865,6 +927,25 @@ pub fn run(cfg: &Config) -> i32 {
                         let nb4 = format!("\r\n{}\r\n", tok::render(&fs, true, false));
                         let full = t.replacen(b4.as_str(), &nb4, 1);
                         cases.push(("full/field-systematic".into(), Case::Full { text: full }));
+                    }
+                }
+            }
+        }
+    }
+    // left-over content after the last field, long and made of multi-byte characters at every byte alignment
+    // (an error message that quotes a fixed number of bytes of it)
+    {
+        let mut seen_mt: std::collections::BTreeSet<String> = Default::default();
+        for (mt, b4) in &w.b4 {
+            if !seen_mt.insert(mt.clone()) {
+                continue;
+            }
+            for unit in ["é", "３", "😀"] {
+                for pad in 0..4usize {
+                    for tag in ["99Z", "72", "20"] {
+                        let tail = format!(":{tag}:{}{}", "A".repeat(pad), unit.repeat(60));
+                        cases.push(("block4/trailing-multibyte".into(), Case::Block4 { mt: mt.clone(), text: format!("{}\n{tail}", b4.trim_end()) }));
+                        cases.push(("block4/trailing-multibyte".into(), Case::Block4 { mt: mt.clone(), text: format!("{}\n{}{}", b4.trim_end(), "B".repeat(pad), unit.repeat(60)) }));
                     }
                 }
             }
@@ -1229,6 +1310,17 @@ fn get_path<'a>(v: &'a Value, path: &[String]) -> Option<&'a Value> {
         c = match c {
             Value::Object(m) => m.get(p)?,
             Value::Array(a) => a.get(p.parse::<usize>().ok()?)?,
+            _ => return None,
+        };
+    }
+    Some(c)
+}
+fn get_path_mut<'a>(v: &'a mut Value, path: &[String]) -> Option<&'a mut Value> {
+    let mut c = v;
+    for p in path {
+        c = match c {
+            Value::Object(m) => m.get_mut(p)?,
+            Value::Array(a) => a.get_mut(p.parse::<usize>().ok()?)?,
             _ => return None,
         };
     }
